@@ -1,7 +1,196 @@
-//! C16 — stub (monitor not built yet)
-use crate::run::{Ctx, Report, Stats};
-pub fn run(_ctx: &Ctx) -> Report {
-    let mut r = Report::new(Stats::default(), "not built");
-    r.inconclusive.push("monitor-not-built".into());
-    r
+//! C16 — threaded dot product equals the sequential one for every length and CPU count.
+//! Native part: CPU-affinity sweep (worker count 1..K), exhaustive lengths, hook H3 partition /
+//! completion-order monitor, injected per-worker delays, background load. (Miri/TSan stages: stages.py)
+use crate::fl::U;
+use crate::json::J;
+use crate::mon::common::*;
+use crate::rng::Rng;
+use crate::run::{catch, par_run, Ctx, Outcome, Report, Stats};
+use ohsl::verif::{self, Event};
+use ohsl::Vector;
+use std::cell::RefCell;
+use std::rc::Rc;
+use std::sync::atomic::{AtomicBool, Ordering};
+use std::sync::Arc;
+
+const TAG: u64 = 0xC16;
+
+fn allowed_cpus() -> Vec<usize> {
+    unsafe {
+        let mut set: libc::cpu_set_t = std::mem::zeroed();
+        if libc::sched_getaffinity(0, std::mem::size_of::<libc::cpu_set_t>(), &mut set) != 0 { return vec![]; }
+        (0..libc::CPU_SETSIZE as usize).filter(|&c| libc::CPU_ISSET(c, &set)).collect()
+    }
+}
+fn pin_to(cpus: &[usize]) -> bool {
+    unsafe {
+        let mut set: libc::cpu_set_t = std::mem::zeroed();
+        for &c in cpus { libc::CPU_SET(c, &mut set); }
+        libc::sched_setaffinity(0, std::mem::size_of::<libc::cpu_set_t>(), &set) == 0
+    }
+}
+
+#[derive(Default, Clone)]
+struct DotObs { begin: Option<(usize, usize)>, chunks: Vec<(usize, usize, usize)>, done: Vec<(usize, usize)>, ended: bool }
+
+fn observed_dot(a: &Vector<f64>, b: &Vector<f64>) -> (Outcome<f64>, DotObs) {
+    let obs = Rc::new(RefCell::new(DotObs::default()));
+    let o2 = obs.clone();
+    verif::set_sink(Box::new(move |ev| {
+        let mut o = o2.borrow_mut();
+        match ev {
+            Event::DotBegin { len, workers } => o.begin = Some((len, workers)),
+            Event::DotChunk { worker, start, end } => o.chunks.push((worker, start, end)),
+            Event::DotDone { worker, ticket } => o.done.push((worker, ticket)),
+            Event::DotEnd => o.ended = true,
+            _ => {}
+        }
+    }));
+    let r = catch(|| a.dot_f64(b));
+    verif::clear_sink();
+    let o = obs.borrow().clone();
+    (r, o)
+}
+
+/// conservation monitor over the hook events of one call: the chunks partition [0,len) exactly once, in order
+fn check_partition(o: &DotObs, len: usize, k: usize) -> Result<String, String> {
+    let (l, w) = o.begin.ok_or("no DotBegin event")?;
+    if l != len { return Err(format!("DotBegin len {} != {}", l, len)); }
+    if w != k { return Err(format!("worker count {} != CPUs available {}", w, k)); }
+    if o.chunks.len() != w { return Err(format!("{} chunks for {} workers", o.chunks.len(), w)); }
+    let mut c = o.chunks.clone();
+    c.sort();
+    let mut pos = 0;
+    for (i, &(wk, s, e)) in c.iter().enumerate() {
+        if wk != i { return Err(format!("chunk worker ids not 0..w: {:?}", c)); }
+        if s != pos || e < s { return Err(format!("chunks do not tile [0,{}): {:?}", len, c)); }
+        pos = e;
+    }
+    if pos != len { return Err(format!("chunks end at {} not {}: {:?}", pos, len, c)); }
+    if o.done.len() != w || !o.ended { return Err(format!("{} completion events for {} workers (ended={})", o.done.len(), w, o.ended)); }
+    let mut d = o.done.clone();
+    d.sort_by_key(|x| x.1);
+    if d.iter().enumerate().any(|(i, x)| x.1 != i) { return Err(format!("tickets not a permutation: {:?}", d)); }
+    let mut ws: Vec<usize> = d.iter().map(|x| x.0).collect();
+    let order = ws.iter().map(|x| x.to_string()).collect::<Vec<_>>().join(",");
+    ws.sort();
+    if ws.iter().enumerate().any(|(i, x)| *x != i) { return Err(format!("completion workers not a permutation: {:?}", d)); }
+    Ok(order)
+}
+
+fn exact_int_dot(a: &[f64], b: &[f64]) -> i128 { a.iter().zip(b).map(|(x, y)| (*x as i128) * (*y as i128)).sum() }
+
+fn datasets(rng: &mut Rng, len: usize) -> Vec<(&'static str, Vec<f64>, Vec<f64>)> {
+    let big = len > 4000;
+    // (i) integer data, all products distinct, all partial sums exact (< 2^53)
+    let a1: Vec<f64> = (0..len).map(|i| (i + 1) as f64).collect();
+    let b1: Vec<f64> = (0..len).map(|i| if big { 1.0 } else { (2 * i + 1) as f64 }).collect();
+    // (ii) signed integers with cancellation
+    let a2: Vec<f64> = (0..len).map(|i| ((i % 97) as f64 + 1.0) * if i % 2 == 0 { 1.0 } else { -1.0 }).collect();
+    let b2: Vec<f64> = (0..len).map(|i| ((i * 7) % 89) as f64 + 1.0).collect();
+    // (iii) general floats
+    let a3: Vec<f64> = (0..len).map(|_| rng.sym() * rng.logpos(1e-3, 1e3)).collect();
+    let b3: Vec<f64> = (0..len).map(|_| rng.sym()).collect();
+    vec![("distinct-integer-products", a1, b1), ("signed-integers", a2, b2), ("general-floats", a3, b3)]
+}
+
+fn one_config(st: &mut Stats, rng: &mut Rng, k: usize, len: usize, delays: bool, only: Option<usize>) {
+    for (di, (name, a, b)) in datasets(rng, len).into_iter().enumerate() {
+        if let Some(o) = only { if o != di { continue; } }
+        st.next_case();
+        let (va, vb) = (Vector::create(a.clone()), Vector::create(b.clone()));
+        let desc = || format!("workers={} len={} data={} delays={}", k, len, name, delays);
+        let seq = match catch(|| va.dot(&vb)) { Outcome::Ok(x) => x, o => { st.violation("C16:dot:panic", format!("{}; {}", o.describe(), desc())); continue; } };
+        let reps = 2;
+        let mut first: Option<u64> = None;
+        for r in 0..reps {
+            if delays { verif::set_dot_delays((0..k).map(|_| if rng.chance(0.5) { rng.below(120) } else { 0 }).collect()); } else { verif::set_dot_delays(vec![]); }
+            let (out, obs) = observed_dot(&va, &vb);
+            st.eval();
+            let v = match out { Outcome::Ok(v) => v, o => { st.violation("C16:dot_f64:panic", format!("{}; {}", o.describe(), desc())); break; } };
+            // hook monitor
+            match check_partition(&obs, len, k) {
+                Ok(order) => { st.set_insert(&format!("completion-orders:w{}", k), order); st.count("hook:partitions-checked"); }
+                Err(e) => { if obs.begin.is_none() { st.count("hook:silent"); } else { st.violation("C16:dot_f64:partition", format!("{}; {}", e, desc())); } }
+            }
+            // value oracles
+            if name != "general-floats" {
+                let ex = exact_int_dot(&a, &b);
+                if v.to_bits() != seq.to_bits() || v != ex as f64 || (ex as f64) as i128 != ex {
+                    st.violation("C16:dot_f64:wrong-value-exact-data", format!("dot_f64 = {:e}, dot = {:e}, exact integer = {}; {}", v, seq, ex, desc()));
+                }
+            } else {
+                let mag: f64 = a.iter().zip(&b).map(|(x, y)| (x * y).abs()).sum();
+                let tol = 2.0 * len as f64 * U * mag;
+                if mag > 0.0 { st.max("general:diff_over_tol", (v - seq).abs() / tol); }
+                if !((v - seq).abs() <= tol) { st.violation("C16:dot_f64:wrong-value-general-data", format!("dot_f64 = {:e}, dot = {:e}, tol {:e}; {}", v, seq, tol, desc())); }
+            }
+            match first { None => first = Some(v.to_bits()), Some(f) => if f != v.to_bits() { st.violation("C16:dot_f64:schedule-dependent", format!("call {} returned {:e}, first call {:e}; {}", r, v, f64::from_bits(f), desc())); } }
+        }
+        verif::set_dot_delays(vec![]);
+        st.count(&format!("configs:w{}", k));
+        st.set_insert("lengths-mod-workers", format!("w{}:{}", k, if len < k { "len<w".to_string() } else if len % k == 0 { "divisible".to_string() } else { "remainder".to_string() }));
+        st.nontrivial(hmix(hmix(hash_str(name), (k * 1_000_000 + len) as u64), delays as u64));
+    }
+}
+
+pub fn run(ctx: &Ctx) -> Report {
+    let cpus = allowed_cpus();
+    let kmax = cpus.len().min(16);
+    // hook liveness
+    let (_, obs) = observed_dot(&Vector::create(vec![1.0, 2.0, 3.0]), &Vector::create(vec![1.0, 1.0, 1.0]));
+    let hook_live = obs.begin.is_some() && obs.ended;
+    // background load for the second half of the run (different OS scheduling pressure)
+    let stop = Arc::new(AtomicBool::new(false));
+    let mut spinners = vec![];
+    let block = 8usize; // lengths per unit
+    let nblocks = (201 + block - 1) / block;
+    let exhaustive_units = (kmax * nblocks * 2) as u64; // x2: without / with injected delays
+    let random_units = ctx.vol(24, 2000);
+    let affinity_fail = std::sync::atomic::AtomicUsize::new(0);
+    let mut ctx2 = ctx.clone();
+    ctx2.threads = ctx.threads.min(8); // each monitor thread spawns up to 16 workers per call
+    // two background threads alternating ~1 ms of spinning with ~1 ms of sleep (unpinned): OS-level scheduling pressure
+    for _ in 0..2 { let s = stop.clone(); spinners.push(std::thread::spawn(move || { let mut x = 0u64; while !s.load(Ordering::Relaxed) { let t = std::time::Instant::now(); while t.elapsed().as_micros() < 1000 { for _ in 0..1000 { x = x.wrapping_mul(6364136223846793005).wrapping_add(1); } } if x == 42 { std::thread::yield_now(); } std::thread::sleep(std::time::Duration::from_millis(1)); } })); }
+    let stats = par_run(&ctx2, TAG, exhaustive_units + random_units, |u, rng, st| {
+        let (k, lens, delays): (usize, Vec<usize>, bool) = if u < exhaustive_units {
+            let v = u as usize;
+            let delays = v % 2 == 1;
+            let k = (v / 2) % kmax + 1;
+            let blk = v / 2 / kmax;
+            (k, (blk * block..((blk + 1) * block).min(201)).collect(), delays)
+        } else {
+            let k = rng.usize(1, kmax);
+            (k, vec![rng.usize(201, 3000), if ctx.quick() { rng.usize(3000, 40_000) } else { rng.usize(3000, 200_000) }, k * rng.usize(1, 50), k * rng.usize(1, 50) + rng.usize(1, k)], rng.bool())
+        };
+        // a rotating window of k CPUs (spreads the monitor threads over the machine)
+        let off = (u as usize * 5) % cpus.len();
+        let window: Vec<usize> = (0..k).map(|i| cpus[(off + i) % cpus.len()]).collect();
+        if !pin_to(&window) || num_cpus_now() != k { affinity_fail.fetch_add(1, Ordering::SeqCst); st.count("skipped:affinity-not-effective"); return; }
+        // quick: every (k, len) with one data set (rotating) and delays on alternate lengths (thread creation costs
+        // ~10 ms per 16-worker call in this VM); thorough: all three data sets in both delay modes
+        for len in lens {
+            if ctx.quick() && u < exhaustive_units { if delays { continue; } one_config(st, rng, k, len, (len + k) % 2 == 1, Some((len + k) % 3)); }
+            else { one_config(st, rng, k, len, delays, None); }
+        }
+    });
+    stop.store(true, Ordering::Relaxed);
+    for s in spinners { let _ = s.join(); }
+    let mut rep = Report::new(stats,
+        "for every worker count k=1..K (K = CPUs in the initial affinity mask, 16 here; the monitor thread pins itself to k CPUs and confirms num_cpus::get()==k) and every length 0..200 (exhaustive) plus random longer lengths (multiples of k, multiples plus remainder, up to 4e4 quick / 2e5 thorough): three data sets (distinct integer products with exact partial sums, signed integers, general floats; quick tier: one data set per (k,len), rotating), each call made twice, half of the configurations with pseudo-random per-worker delays injected through hook H3, two duty-cycled background spinner threads throughout. Judged: bit-equality with dot() and the exact i128 dot product on exact data, |diff|<=2*len*u*sum|ab| on general data, bit-identical repeats; hook events: chunks tile [0,len) exactly once in order, chunk count == worker count == CPUs, completion tickets form a permutation (distinct completion orders are reported per worker count). Non-trivial: every (k,len,data,delay) configuration; distinct = that tuple");
+    rep.assumptions = vec!["worker count is set through sched_setaffinity on the calling thread (what num_cpus::get() reads)".into(), "Miri/TSan stages are run by the check wrapper (see sanitizer_stages in the evidence)".into()];
+    rep.min_nontrivial = if ctx.quick() { 2000 } else { 15_000 };
+    let mut ex = J::obj();
+    ex.set("max_workers", J::UInt(kmax as u64));
+    ex.set("exhaustive_parts", J::Arr(vec![J::s(&format!("worker counts 1..{} x lengths 0..200 x {{no delays, injected delays}}", kmax))]));
+    rep.extra = ex;
+    if !hook_live { rep.inconclusive.push("hook-H3-dot-silent".into()); }
+    if kmax < 2 { rep.inconclusive.push("fewer-than-2-cpus-available".into()); }
+    if affinity_fail.load(Ordering::SeqCst) > 0 { rep.inconclusive.push("affinity-not-effective".into()); }
+    rep
+}
+
+fn num_cpus_now() -> usize {
+    // same source as num_cpus::get() on Linux: the calling thread's affinity mask
+    allowed_cpus().len()
 }
